@@ -121,7 +121,7 @@ CFG = {
     "theorems": ["C14_checked_ops_exact", "C14_div_floor_zero_refuted", "C14_int_range_invariant", "C14_mint_builder_invariant",
                  "C14_int_range_refuted_before_repair", "C14_int_cbor_roundtrip", "C14_int_cast_argument",
                  "C14_int_min_panic_refuted_before_repair", "C14_int_decimal_roundtrip", "C14_int_from_str_refuted_before_repair",
-                 "C14_int_accessors_exact", "C14_int_as_negative_refuted", "C14_mint_as_multiasset_exact", "C14_mint_as_multiasset_refuted", "C14_bigint_cbor_roundtrip", "C14_decimal_roundtrip", "C14_from_str_canonical",
+                 "C14_metadata_int_json_exact", "C14_int_accessors_exact", "C14_int_as_negative_refuted", "C14_mint_as_multiasset_exact", "C14_mint_as_multiasset_refuted", "C14_bigint_cbor_roundtrip", "C14_decimal_roundtrip", "C14_from_str_canonical",
                  "C14_value_add_exact_or_error", "C14_value_sub_exact_or_error", "C14_value_sub_refuted_before_repair",
                  "C14_value_clamped_sub_spec", "C14_value_add_comm", "C14_value_add_assoc", "C14_sub_undoes_add",
                  "C14_compare_componentwise", "C14_value_eq_sound", "C14_judge_accepts_model"],
